@@ -22,6 +22,7 @@ import re
 
 from core import Stream, enc, dec, enc_list, dec_list, run_driver
 import cli
+import places
 import reports_common as rc
 import c03
 import c04
@@ -321,7 +322,7 @@ def src_label(source, stype):
 def run_impl(case):
     flags = case["flags"]
     opts = (["--include-submodules"] if flags[0] == "1" else []) + (["--include-meson-subprojects"] if flags[1] == "1" else [])
-    with cli.scratch("rv-e2e-") as root:
+    with places.project_dir(case, "rv-e2e-") as root:
         materialise(root, case["tree"])
         saved = os.environ.get("_SUPPRESS_DEP5_WARNING")
         os.environ["_SUPPRESS_DEP5_WARNING"] = "1"
@@ -700,6 +701,9 @@ def gen_case(rng):
         if rng.random() < 0.03:
             add_path(tree, "REUSE.toml", ["f", {"t": "toml", "tables": [{"globs": ["**"], "prec": None, "cop": ["2000 X"], "lic": None}]}])
     case = {"flags": flags, "tree": tree}
+    where = places.choose(rng)
+    if where:
+        case["root"] = where          # the project lives in a directory with an unusual name (places.py); no oracle looks at it
     # LICENSES/: provide what is used, then disturb
     tr = truth(case)
     if tr["status"] == "ok":
